@@ -200,10 +200,13 @@ def assign(
             raise TypeError("Unsupported assignment lhs: {} rhs: {}".format(lhs, rhs))
 
         # If a single-value structure, assign its only field
+        # A field of a structure with a layout has an explicitly defined shape, as in rec_call.
         while lhs_fields is not None and len(lhs_fields) == 1:
+            lhs_strict = isinstance(lhs, ValueLike)
             lhs = lhs[next(iter(lhs_fields))]  # type: ignore
             lhs_fields = assign_arg_fields(lhs)
         while rhs_fields is not None and len(rhs_fields) == 1:
+            rhs_strict = isinstance(rhs, ValueLike)
             rhs = rhs[next(iter(rhs_fields))]  # type: ignore
             rhs_fields = assign_arg_fields(rhs)
 
